@@ -254,6 +254,10 @@ def gen_case(rng, i):
     if k < 0.2 and len(N) % 2 == 0 and len(N) >= 2:      # operator shape
         h = len(N) // 2
         shape = [(N[j], N[h + j]) for j in range(h)]; fam += "-operator"
+        g = rng.random()                                  # the dense source need not come grouped as M+N: any array with the same entries in the same flat order
+        if g < 0.25 and N[1:] + N[:1] != N: A = A.reshape(N[1:] + N[:1]); fam += "-regrouped"
+        elif g < 0.4: A = A.reshape(int(np.prod(N[:h])), int(np.prod(N[h:]))); fam += "-matrix-source"
+        elif g < 0.5: A = A.reshape(-1); fam += "-flat-source"
     elif k < 0.35 and len(N) >= 2:                        # explicit (different) tensor shape
         flat = int(np.prod(N)); shape = [N[0] * N[1]] + N[2:] if len(N) > 2 else [flat]
         fam += "-reshaped"
